@@ -478,9 +478,14 @@ class Group:
             back_bone += value
         side_chain = 0.0
         for determinant in self.determinants['sidechain']:
-            if determinant.label[0:3] not in [
-                    'ASP', 'GLU', 'LYS', 'ARG', 'HIS', 'CYS', 'TYR', 'C- ',
-                    'N+ ']:
+            # determinants of the iterative scheme refer to Iterative objects
+            partner = getattr(determinant.group, 'group', determinant.group)
+            # a residue left out of --titrate_only is a non-titratable
+            # hydrogen-bond partner whatever its residue type
+            if (not partner.titratable
+                    or determinant.label[0:3] not in [
+                        'ASP', 'GLU', 'LYS', 'ARG', 'HIS', 'CYS', 'TYR',
+                        'C- ', 'N+ ']):
                 value = determinant.value
                 side_chain += value
         self.intrinsic_pka = (
